@@ -32,6 +32,9 @@ class _LogCatcher(logging.Handler):
 
 
 class BudgetMonitor(solvex.Monitor):
+    def __init__(self, check_returns=True):
+        self.check_returns = check_returns
+
     def start(self, ex):
         self.h = None
         if ex.cfg.get("do_logging"):
@@ -57,11 +60,12 @@ class BudgetMonitor(solvex.Monitor):
         maxfun = cfg["maxfun"]
         s = ex.soln
         if ex.outcome != "returned":
-            if ex.outcome == "raised":
+            if ex.outcome == "raised" and self.check_returns:
                 ex.violate("returns", "solve raised %s: %s" % (type(ex.exc).__name__, ex.exc))
             return
         if s.flag == s.EXIT_INPUT_ERROR:
-            ex.violate("returns", "input error for a valid configuration: %s" % s.msg)
+            if self.check_returns:
+                ex.violate("returns", "input error for a valid configuration: %s" % s.msg)
             return
         if s.nf != ncalls:
             ex.violate("nf", "soln.nf=%s but objfun was called %d times" % (s.nf, ncalls))
